@@ -45,6 +45,31 @@ def errStr : Vole.VoleErr → String
   | .bytes32Panic => "panic"
   | .lengthMismatch => "err-length-mismatch"
 
+/-- `<p> <xs> <ys>` triples. -/
+def parseCalls : List String → Option (List Vole.Call)
+  | [] => some []
+  | p :: xs :: ys :: rest => do
+    let p ← natOfHex p
+    let xs ← parseNats xs
+    let ys ← parseNats ys
+    let cs ← parseCalls rest
+    some (⟨xs, ys, p⟩ :: cs)
+  | _ => none
+
+def sessionStr (s : Vole.Session) : String :=
+  s!"r={natsStr s.rs};u={natsStr s.us};ymsg={hexBytes s.ymsg};umsg={hexBytes s.umsg}"
+
+/-- `fx,<rl>,<a>,<b>` or `fxk,<r>,<s>,<b>`. -/
+def parseGCall (s : String) : Option Fx.GCall :=
+  match s.splitOn "," with
+  | ["fx", rl, a, b] => do some (.fx (BitVec.ofNat 32 (← natOfHex rl)) (← a.toNat?) (← b.toNat?))
+  | ["fxk", r, t, b] => do some (.fxk (BitVec.ofNat 32 (← natOfHex r)) (BitVec.ofNat 32 (← natOfHex t)) (← b.toNat?))
+  | _ => none
+
+def gOutStr : Fx.GOut → String
+  | .fx r => s!"w={hex128 r.wire.l0}{hex128 r.wire.l1};got={hex128 r.got};r={r.r};xb={r.xb}"
+  | .fxk x => s!"w={hex128 x.wire.l0}{hex128 x.wire.l1};got={hex128 x.got};r={hexFixed 8 x.r.toNat};xb={hexFixed 8 x.xb.toNat}"
+
 def handle (args : List String) : String :=
   match args with
   -- vole <p> <labels> <xs> <ys>
@@ -55,6 +80,22 @@ def handle (args : List String) : String :=
       | .error e => errStr e
       | .ok s => s!"r={natsStr s.rs};u={natsStr s.us};ymsg={hexBytes s.ymsg};umsg={hexBytes s.umsg}"
     | _, _, _, _ => "bad-op"
+  -- voles <row stream> (<p> <xs> <ys>)*: a history of Mul calls on one pair
+  | "voles" :: stream :: rest =>
+    match parseLabels stream, parseCalls rest with
+    | some stream, some calls =>
+      let arr := stream.toArray
+      let need := (calls.map fun c => Vole.roundUp8 c.xs.length).sum
+      if arr.size < need then s!"stream-short {arr.size} {need}" else
+      match Vole.runCalls Vole.prgAes (fun i => arr.getD i 0#128) ⟨0⟩ calls with
+      | .error e => errStr e
+      | .ok (st, ss) => "|".intercalate (s!"pos={st.pos}" :: ss.map sessionStr)
+    | _, _ => "bad-op"
+  -- fxs <gadget call>*: a history of gadget calls over one OT instance
+  | "fxs" :: rest =>
+    match rest.mapM parseGCall with
+    | some cs => "|".intercalate ((Fx.runGadgets Fx.idealOt cs).map gOutStr)
+    | none => "bad-op"
   -- fx <rl:8 hex> <a> <b>
   | ["fx", rl, a, b] =>
     match natOfHex rl, a.toNat?, b.toNat? with
